@@ -26,7 +26,7 @@ import (
 )
 
 type airStats struct {
-	Ops, Scenarios, Mutations, Fatal, ErrorResults, OkResults, Panics                         int
+	Ops, Scenarios, Mutations, Fatal, ErrorResults, OkResults, Panics, FedBeforeReplay        int
 	Clones, CloneOps, Restarts, RestartPoints, SeedEntries, ReplayedResults, SecondCeremonies int
 	MutationHist                                                                              map[string]int
 	OutcomeHist                                                                               map[string]int
@@ -587,7 +587,7 @@ func (a *airRun) faultScenario(outDir string, n, t int) {
 				a.mon(fmt.Sprintf("C12 same_mnemonic_same_keys: reference machine holds %s, the original %s", truncate(refKey, 90), truncate(want, 90)))
 			}
 			nops := len(victim.coldLog)
-			for _, kind := range []string{"after-step", "computed-not-logged", "logged-file-lost"} {
+			for _, kind := range []string{"after-step", "computed-not-logged", "logged-file-lost", "fed-before-replay"} {
 				for at := 0; at < nops; at++ {
 					if a.tier != "thorough" && a.rng.Intn(2) == 0 && kind != "after-step" {
 						continue
@@ -710,7 +710,7 @@ func (a *airRun) secondCeremony(dir string, c *cluster, victim *vnode, mnemonic,
 	}
 	a.ctx = " in a second ceremony of the process"
 	defer func() { a.ctx = "" }()
-	for _, kind := range []string{"after-step", "computed-not-logged", "logged-file-lost"} {
+	for _, kind := range []string{"after-step", "computed-not-logged", "logged-file-lost", "fed-before-replay"} {
 		for _, at := range bIdx {
 			if a.tier != "thorough" && a.rng.Intn(3) != 0 {
 				continue
@@ -737,7 +737,7 @@ func (a *airRun) restartScenario(dir string, victim *vnode, mnemonic, round stri
 	}
 	closeM := func() { m.VerifCloseDB() }
 	defer func() { closeM(); os.RemoveAll(mdir) }()
-	restart := func() bool {
+	reopen := func() bool {
 		m.VerifCloseDB()
 		m2, err := reopenMachine(mdir, "pw")
 		if err != nil {
@@ -746,17 +746,24 @@ func (a *airRun) restartScenario(dir string, victim *vnode, mnemonic, round stri
 		}
 		m = m2
 		a.st.Restarts++
+		return true
+	}
+	replay := func() {
 		// the operator replays the round's log (nothing to replay before the first logged operation)
-		func() {
-			defer func() {
-				if rec := recover(); rec != nil {
-					a.mon(fmt.Sprintf("C12 replay (%s): ReplayOperationsLog panicked: %v", tag, rec))
-				}
-			}()
-			if err := m.ReplayOperationsLog(round); err != nil && !strings.Contains(err.Error(), "not found") {
-				a.mon(fmt.Sprintf("C12 replay (%s): ReplayOperationsLog failed: %v", tag, truncate(err.Error(), 160)))
+		defer func() {
+			if rec := recover(); rec != nil {
+				a.mon(fmt.Sprintf("C12 replay (%s): ReplayOperationsLog panicked: %v", tag, rec))
 			}
 		}()
+		if err := m.ReplayOperationsLog(round); err != nil && !strings.Contains(err.Error(), "not found") {
+			a.mon(fmt.Sprintf("C12 replay (%s): ReplayOperationsLog failed: %v", tag, truncate(err.Error(), 160)))
+		}
+	}
+	restart := func() bool {
+		if !reopen() {
+			return false
+		}
+		replay()
 		return true
 	}
 	a.st.RestartPoints++
@@ -797,6 +804,25 @@ func (a *airRun) restartScenario(dir string, victim *vnode, mnemonic, round stri
 				if !restart() {
 					return
 				}
+				a.emit("restart", obsLog())
+			case "fed-before-replay":
+				// started again, the machine is handed the next operation file BEFORE its log is replayed: it holds no instance of
+				// the round and refuses fatally - no result file, nothing logged (C12Air.fatal_is_noop); then the log is replayed
+				// and the same file handed over again (below), answered like by the machine that never stopped
+				if !reopen() {
+					return
+				}
+				// (the commits operation opens a round: a machine without an instance accepts it - there is nothing to refuse)
+				if string(op.Type) != "state_dkg_commits_await_confirmations" {
+					logged := obsLog()
+					out := tryOperation(m, op, true)
+					a.st.FedBeforeReplay++
+					if now := obsLog(); now != logged {
+						a.mon(fmt.Sprintf("C12 carries_on_identically (%s): operation %d (%s) handed to the machine that was started again and has not replayed its log yet is answered %s, and the durable log of the round changed from [%s] to [%s]: a refused operation was logged, the replay will execute it", tag, i, op.Type, out.kind, logged, now))
+						return
+					}
+				}
+				replay()
 				a.emit("restart", obsLog())
 			case "computed-not-logged":
 				func() {
